@@ -67,3 +67,22 @@ func TestDiff(t *testing.T) {
 		t.Fatal("duplicate not seen")
 	}
 }
+
+func TestSpecialNames(t *testing.T) {
+	l, c, err := SpecialNames("/repo")
+	if err != nil {
+		t.Skip(err)
+	}
+	t.Logf("labels %v contexts %v", l, c)
+	has := func(xs []string, s string) bool {
+		for _, x := range xs {
+			if x == s {
+				return true
+			}
+		}
+		return false
+	}
+	if !has(l, "__ttl_days__") || !has(c, "TTL_DAYS") {
+		t.Errorf("the TTL pseudo-label / context value were not found: %v %v", l, c)
+	}
+}
